@@ -210,6 +210,7 @@ pub fn run(run: &mut Run) {
     }
     // encoder-call sequences (ENCSEQ): what the last call of every sequence produced must round-trip
     super::encprops::sweep_encseq(run, "C01");
+    super::encprops::sweep_encdeep(run, "C01");
     // every 128 x 128 (sender, destination) pair for the basic tuples, decoded by the *addressee*
     // (a context at the destination address) and by a context holding the sender's address as EID
     {
